@@ -18,14 +18,14 @@ var dirPool = []string{"d", "dir", "sub dir", "a", "b", "..d", "d..", "...", "æ—
 
 var suffixes = []string{".txt", "f2", "t", " ", ".gz", "Ã©.txt", "", "a", ".bin", "1", "xt"}
 
-func contentDesc(r *prng.R) string {
+func contentDesc(r *prng.R, big bool) string {
 	var n int
 	switch x := r.Intn(100); {
 	case x < 22:
 		n = 0
-	case x < 70:
+	case x < 72:
 		n = r.Range(1, 64)
-	case x < 94:
+	case x < 98 || big:
 		n = r.Range(65, 4096)
 	default:
 		n = r.Range(4097, 150000)
@@ -39,12 +39,12 @@ func genTree(r *prng.R, big bool) *Case {
 	switch x := r.Intn(100); {
 	case x < 12:
 		nfiles = r.Range(0, 2)
-	case x < 60:
-		nfiles = r.Range(3, 12)
-	case x < 90:
-		nfiles = r.Range(13, 40)
+	case x < 67:
+		nfiles = r.Range(3, 10)
+	case x < 93:
+		nfiles = r.Range(11, 30)
 	default:
-		nfiles = r.Range(41, 80)
+		nfiles = r.Range(31, 80)
 	}
 	if big {
 		nfiles = r.Range(120, 200)
@@ -105,7 +105,7 @@ func genTree(r *prng.R, big bool) *Case {
 				q = ""
 			}
 		}
-		desc := contentDesc(r)
+		desc := contentDesc(r, big)
 		if len(descs) > 0 && r.Chance(1, 10) {
 			desc = prng.Pick(r, descs) // identical contents under different names
 		}
@@ -144,13 +144,13 @@ func normalSeg(r *prng.R) string { return prng.Pick(r, hsegs) }
 
 // hostileName builds an entry name; no prefix of it climbs more than maxUp
 // levels above the destination (so that even an unchecked extraction stays
-// inside the sandbox directory that is snapshotted)
-func hostileName(r *prng.R, maxUp int, destBase string, above []string, absRoot string) string {
+// inside the sandbox directory that is snapshotted).  comps are the path
+// elements of the destination below the snapshot directory.  "${ROOT}" is
+// replaced by the absolute path of the snapshot directory when the case runs.
+func hostileName(r *prng.R, maxUp int, comps []string) string {
 	up := func(k int) string { return strings.Repeat("../", k) }
-	k := 0
-	if maxUp > 0 {
-		k = r.Range(1, maxUp)
-	}
+	k := r.Range(1, maxUp)
+	destBase := comps[len(comps)-1]
 	switch r.Intn(22) {
 	case 0: // plain relative
 		return normalSeg(r) + "/" + normalSeg(r)
@@ -159,7 +159,7 @@ func hostileName(r *prng.R, maxUp int, destBase string, above []string, absRoot 
 	case 2: // absolute
 		return "/" + normalSeg(r) + "/" + normalSeg(r)
 	case 3: // absolute name of a path in the sandbox, above the destination
-		return absRoot + "/abs_escape.txt"
+		return "${ROOT}/abs_escape.txt"
 	case 4: // climbs out
 		return up(k) + "escaped.txt"
 	case 5:
@@ -169,29 +169,16 @@ func hostileName(r *prng.R, maxUp int, destBase string, above []string, absRoot 
 	case 7:
 		return normalSeg(r) + "/" + normalSeg(r) + "/../../" + up(k) + "b"
 	case 8: // sibling whose name has the destination's name as a prefix
-		if maxUp == 0 {
-			return "../x"[3:]
-		}
 		return "../" + destBase + prng.Pick(r, []string{"2", ".bak", "_evil", " "}) + "/" + normalSeg(r)
 	case 9: // leaves and comes back: allowed
-		if maxUp == 0 {
-			return "a/../b"
-		}
 		return "../" + destBase + "/" + normalSeg(r)
-	case 10: // comes back through several levels
-		n := len(above)
-		if k > n {
-			k = n
-		}
-		return up(k) + strings.Join(append(append([]string{}, above[n-k:]...), normalSeg(r)), "/")
+	case 10: // comes back through several levels: allowed
+		return up(k) + strings.Join(append(append([]string{}, comps[len(comps)-k:]...), normalSeg(r)), "/")
 	case 11: // directory entries
 		return prng.Pick(r, []string{"a/", "d/e/", "/", "//", "../", "./", "../x/", "a/../"})
 	case 12: // ends in . or ..
 		return prng.Pick(r, []string{"a/.", "a/..", "a/b/..", ".", "./.", "a/./."})
 	case 13:
-		if maxUp == 0 {
-			return "."
-		}
 		return prng.Pick(r, []string{"..", "../.", "a/../..", "./..", "../" + destBase, "../" + destBase + "/.", "../" + destBase + "/a/.."})
 	case 14: // empty name, doubled slashes, dots inside
 		return prng.Pick(r, []string{"", "a//b", "a/./b", "./a", "//a", "a/b/../c", "./../" + destBase + "/z"})
@@ -199,75 +186,82 @@ func hostileName(r *prng.R, maxUp int, destBase string, above []string, absRoot 
 		return prng.Pick(r, []string{"..\\escaped.txt", "a\\b", "..\\..\\x", "\\abs", "a/..\\../b", "..\\"})
 	case 16: // absolute with dots
 		return "/" + up(k) + "x"
-	case 17: // clean climbs cancelled inside the name
+	case 17: // climbs cancelled inside the name
 		return normalSeg(r) + "/../" + normalSeg(r) + "/../" + normalSeg(r)
 	case 18:
-		return up(k) + "." + "/" + normalSeg(r)
+		return up(k) + "./" + normalSeg(r)
 	case 19: // deep plain path
 		return "p/q/r/s/" + normalSeg(r)
 	case 20:
 		return normalSeg(r) + "/" + normalSeg(r) + "/" + normalSeg(r)
-	default:
-		return up(k)[:3*k-1] + "/" + up(0) + normalSeg(r)
+	default: // sibling of an ancestor
+		return up(k) + destBase + "/" + normalSeg(r)
 	}
 }
 
-func genHostile(r *prng.R, idx int) *Case {
+func smallDesc(r *prng.R) string {
+	if r.Chance(1, 5) {
+		return fmt.Sprintf("0:%d", r.Intn(1000))
+	}
+	return fmt.Sprintf("%d:%d", r.Range(1, 300), r.Intn(100000))
+}
+
+func genHostile(r *prng.R) *Case {
 	c := &Case{Kind: "hostile"}
 	depth := r.Range(1, 4)
-	above := []string{}
+	var comps []string
 	for i := 1; i < depth; i++ {
-		above = append(above, prng.Pick(r, []string{"L", "M", "x y", "dest", "up"})+fmt.Sprint(i))
+		comps = append(comps, prng.Pick(r, []string{"L", "M", "x y", "dest", "up"})+fmt.Sprint(i))
 	}
 	destBase := prng.Pick(r, []string{"dest", "dest", "out", "d e s t", "dÃ©st", "dest.d"})
-	c.Dest = strings.Join(append(append([]string{}, above...), destBase), "/")
+	parent := strings.Join(comps, "/")
+	comps = append(comps, destBase)
+	c.Dest = strings.Join(comps, "/")
 	c.DestForm = prng.Pick(r, []string{"", "", "", "slash", "dslash", "dotmid"})
-	// state of the snapshot directory before
-	destState := r.Intn(10)
-	switch {
-	case destState < 5: // exists, with content
-		c.Before = append(c.Before, Item{P: c.Dest, D: true})
-		for _, p := range []string{"a", "b/c", "d", "f.txt", "k/old.txt"} {
-			if r.Chance(1, 3) {
-				if r.Chance(1, 4) {
-					c.Before = append(c.Before, Item{P: c.Dest + "/" + p, D: true})
-				} else {
-					c.Before = append(c.Before, Item{P: c.Dest + "/" + p, C: contentDesc(r)})
-				}
-			}
-		}
-	case destState < 7: // exists, empty
-		c.Before = append(c.Before, Item{P: c.Dest, D: true})
-	case destState < 9: // absent (possibly with absent ancestors)
-		if len(above) > 0 && r.Chance(1, 2) {
-			c.Before = append(c.Before, Item{P: strings.Join(above[:r.Range(1, len(above))], "/"), D: true})
-		}
-	default: // the destination is a regular file
-		c.Before = append(c.Before, Item{P: c.Dest, C: contentDesc(r)})
-	}
-	// neighbours that must stay untouched
-	parent := strings.Join(above, "/")
 	pj := func(s string) string {
 		if parent == "" {
 			return s
 		}
 		return parent + "/" + s
 	}
-	parentExists := len(above) == 0
-	for _, b := range c.Before {
-		if b.P == c.Dest || strings.HasPrefix(b.P, parent+"/") || b.P == parent {
-			parentExists = true
+	// state of the snapshot directory before
+	neighbours := true
+	switch x := r.Intn(10); {
+	case x < 5: // the destination exists, with content
+		c.Before = append(c.Before, Item{P: c.Dest, D: true})
+		for _, p := range []string{"a", "b/c", "d", "f.txt", "k/old.txt", "c"} {
+			if r.Chance(1, 3) {
+				if r.Chance(1, 4) {
+					c.Before = append(c.Before, Item{P: c.Dest + "/" + p, D: true})
+				} else {
+					c.Before = append(c.Before, Item{P: c.Dest + "/" + p, C: smallDesc(r)})
+				}
+			}
 		}
+	case x < 7: // exists, empty
+		c.Before = append(c.Before, Item{P: c.Dest, D: true})
+	case x < 8: // absent, parent exists
+		if parent != "" {
+			c.Before = append(c.Before, Item{P: parent, D: true})
+		}
+	case x < 9: // absent together with some ancestors
+		neighbours = false
+		if len(comps) > 2 && r.Bool() {
+			c.Before = append(c.Before, Item{P: comps[0], D: true})
+		}
+	default: // the destination is a regular file
+		c.Before = append(c.Before, Item{P: c.Dest, C: smallDesc(r)})
 	}
-	if parentExists || r.Chance(1, 2) {
+	// neighbours that must stay untouched
+	if neighbours {
 		for _, nb := range []string{destBase + "2/keep.txt", destBase + ".bak", "escaped.txt", "a", "b/keep", destBase + "_evil/a"} {
 			if r.Chance(1, 3) {
-				c.Before = append(c.Before, Item{P: pj(nb), C: contentDesc(r)})
+				c.Before = append(c.Before, Item{P: pj(nb), C: smallDesc(r)})
 			}
 		}
 	}
 	if r.Chance(1, 3) {
-		c.Before = append(c.Before, Item{P: "escaped.txt", C: contentDesc(r)})
+		c.Before = append(c.Before, Item{P: "escaped.txt", C: smallDesc(r)})
 	}
 	c.Before = dedupe(c.Before)
 	n := 1
@@ -280,11 +274,11 @@ func genHostile(r *prng.R, idx int) *Case {
 		n = r.Range(5, 9)
 	}
 	for i := 0; i < n; i++ {
-		it := Item{C: contentDesc(r)}
+		it := Item{C: smallDesc(r)}
 		switch x := r.Intn(20); {
 		case x < 2 && len(c.Items) > 0: // duplicate name
 			it.P = prng.Pick(r, c.Items).P
-		case x < 4 && len(c.Items) > 0: // clash: earlier entry as a directory of this one, or the reverse
+		case x < 4 && len(c.Items) > 0: // clash: an earlier entry as a directory of this one, or the reverse
 			q := prng.Pick(r, c.Items).P
 			if r.Bool() {
 				it.P = q + "/" + normalSeg(r)
@@ -293,21 +287,17 @@ func genHostile(r *prng.R, idx int) *Case {
 			} else {
 				it.P = q + "/in"
 			}
-		case x < 6: // mostly harmless entries around the hostile ones
+		case x < 6: // harmless entries around the hostile ones
 			it.P = normalSeg(r) + "/" + normalSeg(r)
 		default:
-			it.P = hostileName(r, depth, destBase, above, "/nonexistent-root-c20")
+			it.P = hostileName(r, depth, comps)
 		}
 		if climbs(it.P, depth) {
 			it.P = "clamped/" + normalSeg(r)
 		}
 		it.D = r.Chance(1, 12)
-		if len(it.C) > 0 && strings.HasPrefix(it.C, "1") && len(it.C) > 8 { // keep archive contents small
-			it.C = fmt.Sprintf("%d:%d", r.Range(0, 300), r.Intn(1000))
-		}
 		c.Items = append(c.Items, it)
 	}
-	_ = idx
 	return c
 }
 
